@@ -1,13 +1,21 @@
-"""Run the registered checks against every seeded change in /verif/seeded/<id>/.
+"""Seeded property-breaking changes: confirm them and run the registered checks against them.
 
-For each seeded change: export /repo HEAD to a scratch copy under /var/tmp, `git apply` patch.diff there,
-run the demonstration (must FAIL with the change), run the quick check of the property it breaks with
-XITORCH_REPO pointing at the copy (must exit 1 with a VIOLATION line), remove the copy.
-(Equivalent to `git -C /repo apply` + check + `git -C /repo checkout -- .`, without touching /repo while
-other work is running.)
+Layout: /verif/seeded/<id>/{patch.diff, demo.py, meta.json}.  meta.json: {"property": "C07", "needs": "...",
+"what": "...", "ran": "..."}.
 
-usage: /venv/bin/python tools_seeded.py [ids...] [--tier quick] [--all-checks] [--seeds 0,1]
-Writes seeded/RESULTS.md.
+For each seeded change:
+  * export /repo HEAD to a scratch copy under /var/tmp (never touches /repo), run the demonstration on the clean
+    copy (must PASS), `git apply` patch.diff, run the demonstration again (must FAIL);
+  * with --suite: run the repository's own test suite on the changed copy and compare with the clean tree's known
+    failures (must add none);
+  * run the quick (or --tier thorough) check of the property it breaks (and with --also C02,C09 further checks)
+    with XITORCH_REPO pointing at the copy: must exit 1 with a VIOLATION line;
+  * remove the copy.
+(Equivalent to `git -C /repo apply` + check + `git -C /repo checkout -- .`, without touching /repo while other
+work is running.)
+
+usage: /venv/bin/python tools_seeded.py [ids...] [--tier quick] [--suite] [--seeds 0,1] [--also C02,C09] [--jobs 1]
+Writes/merges seeded/RESULTS.md.
 """
 import json
 import os
@@ -18,72 +26,109 @@ import time
 
 HERE = os.path.dirname(os.path.abspath(__file__))
 SEEDED = os.path.join(HERE, "seeded")
+BASE_FAIL = {"xitorch/_tests/test_linop_fcns.py::test_solve_A_methods[dtype0-device0-scipy_gmres]"}
 
 
-def sh(cmd, cwd=None, env=None, timeout=3600):
+def sh(cmd, cwd=None, env=None, timeout=7200):
     p = subprocess.run(cmd, shell=True, cwd=cwd, env=env, stdout=subprocess.PIPE, stderr=subprocess.STDOUT,
                        text=True, timeout=timeout)
     return p.returncode, p.stdout
 
 
-def main():
-    args = [a for a in sys.argv[1:] if not a.startswith("--")]
-    tier = "quick"
-    seeds = ["0"]
-    if "--tier" in sys.argv:
-        tier = sys.argv[sys.argv.index("--tier") + 1]
-        args = [a for a in args if a != tier]
-    if "--seeds" in sys.argv:
-        sv = sys.argv[sys.argv.index("--seeds") + 1]
-        seeds = sv.split(",")
-        args = [a for a in args if a != sv]
-    ids = args or sorted(d for d in os.listdir(SEEDED) if os.path.isdir(os.path.join(SEEDED, d)))
-    rows = []
-    for sid in ids:
-        d = os.path.join(SEEDED, sid)
-        meta = json.load(open(os.path.join(d, "meta.json")))
-        prop = meta["property"]
-        scratch = "/var/tmp/xv-seed-%s-%d" % (sid, os.getpid())
-        shutil.rmtree(scratch, ignore_errors=True)
-        os.makedirs(scratch)
+def opt(name, default=None):
+    if name in sys.argv:
+        return sys.argv[sys.argv.index(name) + 1]
+    return default
+
+
+def one(sid, tier, seeds, suite, also):
+    d = os.path.join(SEEDED, sid)
+    meta = json.load(open(os.path.join(d, "meta.json")))
+    prop = meta["property"]
+    scratch = "/var/tmp/xv-seed-%s-%d" % (sid, os.getpid())
+    shutil.rmtree(scratch, ignore_errors=True)
+    os.makedirs(scratch)
+    row = {"id": sid, "property": prop}
+    try:
         sh("git -C /repo archive HEAD | tar -x -C %s" % scratch)
-        rc, out = sh("git init -q . && git apply --whitespace=nowarn %s" % os.path.join(d, "patch.diff"), cwd=scratch)
-        if rc != 0:
-            rows.append((sid, prop, "PATCH-DOES-NOT-APPLY", "", out.strip()[-200:]))
-            shutil.rmtree(scratch, ignore_errors=True)
-            continue
         env = dict(os.environ, PYTHONPATH=scratch, PYTHONDONTWRITEBYTECODE="1", OMP_NUM_THREADS="1")
         demo = meta.get("demo_cmd", "/venv/bin/python -W ignore demo.py")
-        rc_demo, out_demo = sh(demo, cwd=d, env=env)
-        demo_v = "fails-with-change" if rc_demo != 0 else "DEMO-PASSES-WITH-CHANGE"
-        verdicts = []
+        rc0, out0 = sh(demo, cwd=d, env=env)
+        row["demo_clean"] = "passes" if rc0 == 0 else "FAILS-ON-CLEAN-TREE"
+        rc, out = sh("git init -q . && git apply --whitespace=nowarn %s" % os.path.join(d, "patch.diff"), cwd=scratch)
+        if rc != 0:
+            row["demo_changed"] = "PATCH-DOES-NOT-APPLY: " + out.strip()[-200:]
+            return row
+        rc1, out1 = sh(demo, cwd=d, env=env)
+        row["demo_changed"] = "fails" if rc1 != 0 else "PASSES-WITH-CHANGE"
+        if suite:
+            rcs, outs = sh("/venv/bin/python -m pytest -q -p no:cacheprovider -n 8 --timeout=900 2>&1 | grep -E '^(FAILED|ERROR)|passed|failed'",
+                           cwd=scratch, env=dict(env, PYTHONPATH=""))
+            failed = {l.split()[1] for l in outs.splitlines() if l.startswith(("FAILED", "ERROR")) and len(l.split()) > 1}
+            extra = sorted(failed - BASE_FAIL)
+            row["suite"] = "passes" if not extra else "SUITE-CATCHES-IT: " + ", ".join(extra)[:300]
+        verdicts = {}
         first = ""
-        for sd in seeds:
-            env2 = dict(os.environ, XITORCH_REPO=scratch, VERIF_SEED=sd)
-            t0 = time.time()
-            rc, out = sh("./check %s --tier %s" % (prop, tier), cwd=HERE, env=env2, timeout=7200)
-            vl = [l for l in out.splitlines() if l.startswith("VIOLATION")]
-            verdicts.append("seed%s:%s(%d lines,%.0fs)" % (sd, "DETECTED" if rc == 1 and vl else ("exit%d" % rc), len(vl), time.time() - t0))
-            if vl and not first:
-                first = vl[0].split("#", 1)[-1].strip()[:120]
-        rows.append((sid, prop, demo_v, " ".join(verdicts), first))
+        for p in [prop] + also:
+            vs = []
+            for sd in seeds:
+                env2 = dict(os.environ, XITORCH_REPO=scratch, VERIF_SEED=sd, VERIF_OUT="/var/tmp/xv-out-%s-%d" % (sid, os.getpid()))
+                t0 = time.time()
+                rc, out = sh("./check %s --tier %s" % (p, tier), cwd=HERE, env=env2)
+                vl = [l for l in out.splitlines() if l.startswith("VIOLATION")]
+                vs.append("seed%s:%s(%d,%.0fs)" % (sd, "DETECTED" if rc == 1 and vl else ("exit%d" % rc), len(vl), time.time() - t0))
+                if vl and not first and p == prop:
+                    first = vl[0].split("#", 1)[-1].strip()[:120]
+                shutil.rmtree(env2["VERIF_OUT"], ignore_errors=True)
+            verdicts[p] = " ".join(vs)
+        row["checks"] = verdicts
+        row["first"] = first
+    finally:
         shutil.rmtree(scratch, ignore_errors=True)
-        print(rows[-1], flush=True)
-    # merge with existing results
-    res_path = os.path.join(SEEDED, "RESULTS.md")
+    return row
+
+
+def main():
+    args = [a for a in sys.argv[1:]]
+    tier = opt("--tier", "quick")
+    seeds = opt("--seeds", "0").split(",")
+    also = [x for x in (opt("--also", "") or "").split(",") if x]
+    suite = "--suite" in sys.argv
+    skip = set()
+    for o in ("--tier", "--seeds", "--also", "--jobs"):
+        if o in args:
+            skip.add(args.index(o))
+            skip.add(args.index(o) + 1)
+    ids = [a for i, a in enumerate(args) if i not in skip and not a.startswith("--")]
+    ids = ids or sorted(d for d in os.listdir(SEEDED) if os.path.isdir(os.path.join(SEEDED, d)))
+    rows = []
+    for sid in ids:
+        r = one(sid, tier, seeds, suite, also)
+        rows.append(r)
+        print(json.dumps(r), flush=True)
+    res_path = os.path.join(SEEDED, "RESULTS.json")
     old = {}
     if os.path.exists(res_path):
-        for l in open(res_path):
-            if l.startswith("| ") and not l.startswith("| id") and not l.startswith("| --"):
-                c = [x.strip() for x in l.strip().strip("|").split("|")]
-                old[c[0]] = c
+        old = json.load(open(res_path))
     for r in rows:
-        old[r[0]] = list(r)
-    with open(res_path, "w") as f:
-        f.write("# Seeded changes vs checks (written by tools_seeded.py; tier=%s)\n\n" % tier)
-        f.write("| id | property | demonstration | check verdict | first violation class |\n|---|---|---|---|---|\n")
+        prev = old.get(r["id"], {})
+        if "suite" not in r and "suite" in prev:
+            r["suite"] = prev["suite"]
+        prev_checks = prev.get("checks", {}) if isinstance(prev.get("checks"), dict) else {}
+        prev_checks.update(r.get("checks", {}))
+        r["checks"] = prev_checks
+        r["tier"] = tier
+        old[r["id"]] = r
+    json.dump(old, open(res_path, "w"), indent=1, sort_keys=True)
+    with open(os.path.join(SEEDED, "RESULTS.md"), "w") as f:
+        f.write("# Seeded changes vs checks (written by tools_seeded.py)\n\n")
+        f.write("| id | property | demo on clean tree | demo with change | repo suite with change | check verdicts | first violation class |\n|---|---|---|---|---|---|---|\n")
         for k in sorted(old):
-            f.write("| " + " | ".join(str(x).replace("|", "/") for x in old[k]) + " |\n")
+            r = old[k]
+            ch = "; ".join("%s: %s" % (p, v) for p, v in sorted(r.get("checks", {}).items()))
+            f.write("| %s | %s | %s | %s | %s | %s | %s |\n" % (
+                k, r.get("property"), r.get("demo_clean"), r.get("demo_changed"), r.get("suite", "not run"),
+                ch.replace("|", "/"), str(r.get("first", "")).replace("|", "/")))
 
 
 if __name__ == "__main__":
